@@ -176,6 +176,19 @@ pub fn bytes32_near() -> BoxedStrategy<Bytes32> {
         // uniform below 2^253 (top three bits clear): reaches the square/non-square and sign tests
         2 => proptest::collection::vec(any::<u8>(), 32).prop_map(|mut b| { b[31] &= 0x1f; Bytes32 { family: "uniform-253".into(), bytes: HexBytes(b) } }),
         1 => gen::fq().prop_map(|v| Bytes32::new("field-pattern", &v.0)),
+        // strings that tie with q in their top 1..3 64-bit limbs (below and above q; a quarter of the even
+        // ones below q are valid encodings): what a limb-wise canonicity check has to get right
+        1 => (1usize..4, proptest::collection::vec(any::<u64>(), 4), any::<bool>()).prop_map(|(k, rnd, even)| {
+            let ql = Q.m.to_u64_digits();
+            let mut limbs = ql.clone();
+            for i in 0..4 - k {
+                limbs[i] = rnd[i];
+            }
+            if even {
+                limbs[0] &= !1;
+            }
+            Bytes32::new("ties-with-q", &crate::api::int_of_limbs(&limbs))
+        }),
         // s solved from a structured intermediate value of decoding (DESIGN §12.4)
         1 => gen::s_targeted().prop_map(|v| Bytes32::new("targeted-intermediate", &v.0)),
     ]
